@@ -10,7 +10,7 @@ def sm(seed,idx):
     return z^(z>>31)
 print(sm($2,$3))")
 echo "{\"property\":\"$1\",\"episode_seed\":$SEED}" > /verif/.scratch/in.json
-cd /verif/.scratch && VSIM_MODE=replay VSIM_IN=/verif/.scratch/in.json VSIM_OUT=/verif/.scratch/out.json /verif/bin/sim.test -test.run '^TestSim$' -test.timeout 0
+cd /verif/.scratch && VSIM_MODE=replay VSIM_IN=/verif/.scratch/in.json VSIM_OUT=/verif/.scratch/out.json /verif/bin/sim.dev.test -test.run '^TestSim$' -test.timeout 0
 python3 -c "
 import json
 r=json.load(open('/verif/.scratch/out.json'))
